@@ -1163,6 +1163,7 @@ impl<'a> P<'a> {
                 Ok(Type::Typeof(Box::new(e)))
             }
             Tok::Name(n) if !is_keyword(&n) => {
+                let ns_pos = self.pos();
                 self.advance();
                 let mut ns = None;
                 let mut name = n;
@@ -1189,7 +1190,7 @@ impl<'a> P<'a> {
                     }
                     params = Some(ps);
                 }
-                Ok(Type::Name { ns, name, params })
+                Ok(Type::Name { ns, ns_pos, name, params })
             }
             Tok::Sym("{") => {
                 self.advance();
